@@ -475,6 +475,22 @@ MUTANTS.append(('M90', U, "                        opw_parameters.c3 = non_zero(
 MUTANTS.append(('M91', RT, "        while let Some(parent_index) = self.vertices[cur_index].parent_index {\n            cur_index = parent_index;\n            nodes.push(self.vertices[cur_index].data.clone())",
                 "        while let Some(parent_index) = self.vertices[cur_index].parent_index {\n            cur_index = parent_index;\n            if cur_index == 0 { break; }\n            nodes.push(self.vertices[cur_index].data.clone())",
                 'C13', 'R13.3', 'the ancestor walk stops before the root: paths lose their first and last node'))
+MUTANTS.append(('M92', CA, "        for joints in onboarding.iter().take(onboarding.len().saturating_sub(1)) {", "        for joints in onboarding.iter().take(onboarding.len().saturating_sub(2)) {",
+                'C12', 'R12.8', 'the last relocation waypoint before the strategy point is dropped'))
+MUTANTS.append(('M93', CA, "            let transition = self.step_adaptive_linear_transition(&prev.joints, from, to, 0);", "            let transition = self.step_adaptive_linear_transition(work_path_start, from, to, 0);",
+                'C12', 'R12.8', 'every transition continued from the strategy point instead of the last waypoint'))
+MUTANTS.append(('M94', CA, "        if !self.include_linear_interpolation {", "        if self.include_linear_interpolation {", 'C12', 'R12.8', 'interpolated waypoints dropped when they were requested'))
+MUTANTS.append(('M95', CA, "                    let solutions = self.robot.inverse_continuing(&to.pose, &prev.joints);", "                    let solutions = self.robot.inverse_continuing(&from.pose, &prev.joints);",
+                'C12', 'R12.8', 'a gap is closed towards the source pose of the failed transition'))
+MUTANTS.append(('M96', 'src/path_plan/rrt_to.rs', "                ExtendStatus::Advanced(_) => {}", "                ExtendStatus::Advanced(index) => return ExtendStatus::Reached(index),",
+                'C13', 'R13.7', 'connect reports Reached although the tree only advanced'))
+MUTANTS.append(('M97', 'src/path_plan/rrt_to.rs', "        self.vertices[q2_index].parent_index = Some(q1_index);", "        self.vertices[q1_index].parent_index = Some(q2_index);",
+                'C13', 'R13.7', 'add_edge writes the child into the parent'))
+MUTANTS.append(('M98', W, "        self.body.collides(joints, self.kinematics.as_ref())", "        !self.body.collides(joints, self.kinematics.as_ref())", 'C11', 'R11.5', 'collides of the robot with shape negated'))
+MUTANTS.append(('M99', K, "            constraints: Some(constraints),", "            constraints: None,", 'C08', 'R08.5', 'the constructor drops the limits'))
+MUTANTS.append(('M100', U, "    let opw_parameters = populate_opw_parameters(joint_data, joint_names)", "    let opw_parameters = populate_opw_parameters(joint_data, &None)",
+                'C20', 'R20.11', 'explicit joint names ignored by the mapping stage'))
+MUTANTS.append(('M101', 'src/path_plan/rrt.rs', "            self.step_size_joint_space, // Step size in joint space", "            self.step_size_joint_space * 4.0,", 'C13', 'R13.3', 'the tree search gets four times the configured step'))
 
 # ---- seventh batch: the URDF reader
 KEEP += [
@@ -707,6 +723,5 @@ KEEP += KEEP_AGENTS
 # open by tools/run_selftest.py, one reason each (DESIGN 8.5, eighth campaign)
 OPEN_REWRITES = {
     'R04-3': 'near-normaliser as a value-returning fn applied through array::from_fn: role and call sites are read as fn(&mut f64, f64)',
-    'R12-2': 'flags of a Cartesian extension by split_last + extend, RRT gap by find_map: R12.5 reads the per-item flag choice',
     'R17-2': 'source and target bases through orthonormal_basis(o, x, y) -> Option<Matrix3> and ok_or_else(..)?: R17.1/R17.2 read the two column triples',
 }
